@@ -23,7 +23,9 @@ EXPLANATION = (
     "dependences are present with the right exponent and sign, whatever model-specific prefactors surround them, and every model switch "
     "multiplies its own process only; R6 the C constant eb_<alias> those templates read is defined for every surface species from that "
     "species' own binding energy, printed unformatted; R7 the built-in table reader keys a record by its whole first token (neutral and anion rows "
-    "stay apart) and stores float(second token).")
+    "stay apart) and stores float(second token); R8 a Species instance handed to a reaction is kept (not re-parsed / copied); R9 the renderer "
+    "pastes what <reaction>.rateexpr(grain) returns and no caller catches the refusal; R12 (HH93) tunnelling terms are switched on by name for GH / "
+    "GH2 only; R13 Species.massnumber (alias A) is computed from the species' own element counts, never looked up by a spelling of the species.")
 ASSUMPTIONS = [
     "numerical prefactors and model-specific coverage factors of Hasegawa & Herbst 1993 / Roberts et al. 2007 are NOT decided (needs an independent transcription of the models)",
     "registry closure of the symbols used is C10",
@@ -97,6 +99,9 @@ def strip_conds(e, guards):
     if e[0] == "cond":
         if e[3][0] == "num" and e[3][1] == 0.0:
             guards.append(calg.unparse(e[1]))
+            if e[1][0] == "bin" and e[1][1] in ("<=", "<"):
+                # `b <= a` is `a >= b`, `b < a` is `a > b`: the guard is also listed the other way round
+                guards.append(calg.unparse(("bin", ">=" if e[1][1] == "<=" else ">", e[1][3], e[1][2])))
             return strip_conds(e[2], guards)
         return ("cond", e[1], strip_conds(e[2], guards), strip_conds(e[3], guards))
     if e[0] == "bin":
@@ -193,6 +198,55 @@ def check(ctx):
     from .c14 import _r6 as live_views
     ctx.absorb(lambda sub: live_views(sub, package(sub.tree)), "R11", only=lambda o: "Network.grains:" in o.key and o.outcome != "MISSING")
     _r12_tunnelling(ctx, pkg)
+    _r13_own_mass(ctx, pkg)
+
+
+def _r13_own_mass(ctx, pkg):
+    """`{spec.A}` / `{spec.massnumber}` in the rate templates is the species' OWN mass number: Species.massnumber (A is its alias)
+    derives every value it stores / returns from the species' element counts and the rows of the periodic / isotope tables.  A value
+    looked up in a table by a SPELLING of the species (name, gasname, basename, alias) is some table author's number for a name --
+    wrong wherever that table and the formula disagree (duplicate rows, typos), and shared by species the spelling merges."""
+    ci = pkg.cls("Species")
+    NAMELIKE = {"name", "gasname", "basename", "alias"}
+    getters = {"massnumber"}
+    a = ci.attrs.get("A")
+    if "A" in ci.methods:
+        getters.add("A")
+    elif not (isinstance(a, ast.Name) and a.id == "massnumber"):
+        ctx.unrec("R13", "Species.A", (SPECIES, 0), "`A` is no longer the alias of the massnumber property: what the templates paste as mass number is not known")
+    for gname in sorted(getters):
+        fn = ci.methods.get(gname)
+        if fn is None:
+            ctx.missing("R13", f"Species.{gname}", (SPECIES, 0), "property vanished")
+            continue
+        ctx.saw(SPECIES, f"Species.{gname}")
+
+        def helper(name):
+            return pkg.resolve("Species", name)[1] if name.startswith("_") and not name.startswith("__") else None
+        fl = Flow(fn, SPECIES, resolver=helper)
+        vals = [(f, simp(f.value)) for f in fl.facts if f.value is not None and (f.kind == "return" or (f.kind == "attrstore" and f.extra.get("obj") == SELF))]
+        vals += [(None, simp(v)) for nm, lst in fl.assigns.items() for v, *_ in lst] + [(None, simp(f.value)) for f in fl.facts if f.kind == "augassign" and f.value is not None]
+        by_spelling, composed, opaque = [], False, []
+        for f, v in vals:
+            for x in walk(v):
+                if not isinstance(x, tuple) or not x:
+                    continue
+                key = x[3][0] if x[0] == "meth" and len(x) == 5 and x[2] == "get" and x[3] else x[2] if x[0] == "sub" and len(x) == 3 else None
+                if key is not None and key[0] == "attr" and key[1] == SELF and key[2] in NAMELIKE:
+                    by_spelling.append((f.line if f is not None else fn.lineno, show(x)[:80]))
+                if x == ("attr", SELF, "element_count"):
+                    composed = True
+            if f is not None and f.kind == "return" and not (v == ("attr", SELF, "_massnumber") or v[0] in ("const", "carried", "acc") or any(y == ("attr", SELF, "element_count") for y in walk(v))):
+                opaque.append(show(v)[:80])
+        key_ = f"Species.{gname}:own composition"
+        if by_spelling:
+            ctx.bad("R13", key_, (SPECIES, by_spelling[0][0]), f"the mass number is looked up by a spelling of the species (`{by_spelling[0][1]}`) instead of being computed from its element counts: "
+                    "every grain rate of a species whose table row disagrees with its formula uses a mass number that is not its own",
+                    expected="sum over the periodic / isotope tables of element_count * (protons + neutrons)", found=by_spelling[0][1])
+        elif composed and not opaque:
+            ctx.ok("R13", key_, (SPECIES, fn.lineno), "the mass number is computed from the species' element counts")
+        else:
+            ctx.unrec("R13", key_, (SPECIES, fn.lineno), f"cannot see that the mass number is computed from the species' element counts: returns {opaque or 'nothing recognisable'}")
 
 
 def _r9_rate_from_rateexpr(ctx, pkg):
@@ -725,9 +779,7 @@ def _r2_r5(ctx, rm, pkg):
                     ctx.check(ok, "R5", f"{vkey}:exp({req[1]})", (v.file, v.line), f"Boltzmann factor exp({req[1]})" if ok else f"missing/incorrect Boltzmann factor, expected exp({req[1]})",
                               expected=f"exp({req[1]})", found=txt[:140])
                 elif kind == "guard":
-                    # (`b <= a` is `a >= b`, `b < a` is `a > b`)
-                    flip = lambda g: re.sub(r"^\s*(.+?)\s*(<=|<)\s*(.+?)\s*$", lambda m: f"{m.group(3)} {'>=' if m.group(2) == '<=' else '>'} {m.group(1)}", g) if re.search(r"<=|<", g) and "&&" not in g and "||" not in g else g
-                    ok = any(re.search(req[1], g) or re.search(req[1], flip(g)) for g in guards)
+                    ok = any(re.search(req[1], g) for g in guards)
                     ctx.check(ok, "R5", f"{vkey}:guard {req[1]}", (v.file, v.line), f"guarded by {req[1]}", found=str(guards))
             # which temperature the law is evaluated at is part of the law: gas temperature for what arrives from the gas
             # (accretion, recombination, electron capture), dust temperature for everything that happens on the surface
@@ -971,6 +1023,38 @@ BENIGN = [
     {"name": "single-reactant-by-unpacking", "file": HH, "old": "        spec = reac.reactants[0]\n        rate = \" * \".join(\n            [\n                f\"{opt_thd} * {cov}\",", "new": "        (spec,) = reac.reactants\n        rate = \" * \".join(\n            [\n                f\"{opt_thd} * {cov}\","},
     {"name": "surface-reactants-by-index", "file": HH, "old": "        re1, re2 = reac.reactants\n", "new": "        re1 = reac.reactants[0]\n        re2 = reac.reactants[1]\n"},
     {"name": "tunnelling-test-as-equalities", "file": HH, "old": '        elif re1.name in ["GH", "GH2"]:', "new": '        elif re1.name == "GH" or re1.name == "GH2":'},
+]
+
+_MASS_INIT = "        self._massnumber = 0.0\n        for e in chemistrydata.periodic_table + chemistrydata.isotopes_table:\n"
+_CAND = "    def _eb_candidates(self):\n        yield %s\n        yield %s\n        yield chemistrydata.rate12_binding_energy.get(self.gasname)\n\n    @property\n    def binding_energy(self) -> float:\n"
+_OWN, _USR = "self._binding_energy", "chemistrydata.user_binding_energy.get(self.name)"
+_ONLY_FOR = ("def _only_for(rtype, process):\n    def decorate(builder):\n        def checked(self, reac):\n            if reac.reaction_type != rtype:\n"
+             "                raise ValueError(f\"The reaction type is not {process}\")\n            return builder(self, reac)\n        return checked\n    return decorate\n\n\nclass Grain(Component):\n")
+
+
+def _decorated(member):
+    return [{"file": GR, "old": "class Grain(Component):\n", "new": _ONLY_FOR},
+            {"file": GR, "old": "    def rate_depletion(self, reac: Reaction) -> str:\n        if reac.reaction_type != ReactionType.GRAIN_FREEZE:\n            raise ValueError(\"The reaction type is not depletion\")\n",
+             "new": f"    @_only_for(ReactionType.{member}, \"depletion\")\n    def rate_depletion(self, reac: Reaction) -> str:\n"}]
+
+
+MUTANTS += [
+    {"name": "massnumber-from-table-by-gasname", "file": SPECIES, "old": _MASS_INIT,
+     "new": "        tabulated = chemistrydata.rate12_binding_energy.get(self.gasname)\n        if tabulated:\n            self._massnumber = tabulated\n            return self._massnumber\n" + _MASS_INIT, "rules": ["R13"]},
+    {"name": "binding-energy-candidates-generator-user-first", "edits": [
+        {"file": SPECIES, "old": _EB_CHAIN, "new": "        eb = next(filter(None, self._eb_candidates()), None)\n"},
+        {"file": SPECIES, "old": "    @property\n    def binding_energy(self) -> float:\n", "new": _CAND % (_USR, _OWN)}], "rules": ["R3"]},
+    {"name": "type-validation-decorator-wrong-type", "edits": _decorated("GRAIN_DESORB_THERMAL"), "rules": ["R1"]},
+]
+BENIGN += [
+    {"name": "binding-energy-candidates-generator", "edits": [
+        {"file": SPECIES, "old": _EB_CHAIN, "new": "        eb = next(filter(None, self._eb_candidates()), None)\n"},
+        {"file": SPECIES, "old": "    @property\n    def binding_energy(self) -> float:\n", "new": _CAND % (_OWN, _USR)}]},
+    {"name": "type-validation-decorator", "edits": _decorated("GRAIN_FREEZE")},
+    {"name": "massnumber-local-accumulator", "file": SPECIES,
+     "old": "        self._massnumber = 0.0\n        for e in chemistrydata.periodic_table + chemistrydata.isotopes_table:\n            self._massnumber += self.element_count.get(e.Symbol, 0) * (\n                float(e.NumberofNeutrons) + float(e.NumberofProtons)\n            )\n",
+     "new": "        total = 0.0\n        for e in chemistrydata.periodic_table + chemistrydata.isotopes_table:\n            total += self.element_count.get(e.Symbol, 0) * (\n                float(e.NumberofNeutrons) + float(e.NumberofProtons)\n            )\n        self._massnumber = total\n"},
+    {"name": "guard-written-the-other-way-round", "file": RR, "old": 'rate = f"{eb_h2d} >= {spec.binding_energy} ? ({rate}) : 0.0"', "new": 'rate = f"{spec.binding_energy} <= {eb_h2d} ? ({rate}) : 0.0"'},
 ]
 
 
